@@ -83,6 +83,23 @@ def readDefault (d : Bytes) (pos : Nat) : Out (Nat × Option Bytes) :=
       pure (r.num, some dv)
   else pure (0, none)
 
+/-- the fixed block behind the 0x0C marker: `pos++` (marker), charset, column length, type, flags, decimals,
+`pos += 2` (filler). Returns the values and the new position. -/
+def readFixedBlock (d : Bytes) (pos : Nat) : Out (Nat × Nat × UInt8 × Nat × UInt8 × Nat) := do
+  let pos := pos + 1
+  let charset ← leAt d pos 2
+  let pos := pos + 2
+  let columnLength ← leAt d pos 4
+  let pos := pos + 4
+  let typ ← goIndex d pos
+  let pos := pos + 1
+  let flag ← leAt d pos 2
+  let pos := pos + 2
+  let decimal ← goIndex d pos
+  let pos := pos + 1
+  let pos := pos + 2
+  pure (charset, columnLength, typ, flag, decimal, pos)
+
 /-- `ParseResultField(packet, mariaDBExtendedTypeInfo)` -/
 def parseResultField (p : Packet) (maria : Bool) : Out ColDef := do
   let d := p.data
@@ -91,18 +108,7 @@ def parseResultField (p : Packet) (maria : Bool) : Out ColDef := do
   let (ext, pos) ← if maria then readExt d pos else pure ([], pos)
   if d.length - pos < fixedBlockLen then .err
   else do
-    let pos := pos + 1
-    let charset ← leAt d pos 2
-    let pos := pos + 2
-    let columnLength ← leAt d pos 4
-    let pos := pos + 4
-    let typ ← goIndex d pos
-    let pos := pos + 1
-    let flag ← leAt d pos 2
-    let pos := pos + 2
-    let decimal ← goIndex d pos
-    let pos := pos + 1
-    let pos := pos + 2
+    let (charset, columnLength, typ, flag, decimal, pos) ← readFixedBlock d pos
     let (dl, dv) ← readDefault d pos
     pure { changed := false, originType := 0, maria := maria, data := d, header := p.header,
            schema := (strs[0]?).join, table := (strs[1]?).join, orgTable := (strs[2]?).join,
